@@ -302,6 +302,8 @@ def config_cases(tier):
         out.append(("config", obs, times, init, nm))
     for n1, n2, n3 in itertools.permutations([1, 2, 3], 3):
         out.append(("alias-state", (n1, n2, n3)))
+    for which in ("dict", "list", "matrix", "times", "all"):
+        out.append(("alias-config", which))
     for order in itertools.permutations(range(3)):
         out.append(("alias-noise", order))
         out.append(("alias-device", order))
@@ -379,6 +381,34 @@ def check_alias(kind, order):
             for m, s0 in made:
                 if s0.n_qudits != m:
                     out.append(("C17:instances-share-state:StateRepr.n_qudits", f"after creating states of {order[:len(made)]} qudits, the {m}-qudit state reports n_qudits={s0.n_qudits}"))
+        return out + [("@alias", "")]
+    if kind == "alias-config":
+        # two configurations built one after the other from the same caller-owned argument objects, edited in between
+        from pulser.backend import EmulationConfig, Occupation
+
+        solver = {"max_step": 0.5, "nested": {"a": [1, 2]}}
+        tags = ["x", "y"]
+        mat = np.array([[0.0, 1.0], [1.0, 0.0]])
+        times = [0.0, 0.5, 1.0]
+        obs = [Occupation(one_state="r")]
+        kw = dict(observables=obs, interaction_matrix=mat, default_evaluation_times=times, solver=solver, tags=tags)
+        first = EmulationConfig(**kw)
+        snap0 = json.dumps(json.loads(first.to_abstract_repr(skip_validation=True)), sort_keys=True)
+        opt0 = deep({k: v for k, v in first._backend_options.items() if k != "observables"})
+        which = order
+        if which in ("dict", "all"):
+            solver["max_step"] = 0.01
+            solver["nested"]["a"].append(3)
+        if which in ("list", "all"):
+            tags.append("z")
+        if which in ("matrix", "all"):
+            mat[0, 1] = mat[1, 0] = 7.0
+        if which in ("times", "all"):
+            times[1] = 0.25
+        second = EmulationConfig(**kw)
+        snap1 = json.dumps(json.loads(first.to_abstract_repr(skip_validation=True)), sort_keys=True)
+        if snap1 != snap0 or deep({k: v for k, v in first._backend_options.items() if k != "observables"}) != opt0:
+            out.append((f"C17:instances-share-state:EmulationConfig:{which}", "the first configuration changed when the arguments it was built from were edited before building a second one"))
         return out + [("@alias", "")]
     makers = {}
     if kind == "alias-noise":
